@@ -32,8 +32,8 @@ for pid in props:
 m = {
     'version': 1,
     'setup_cmd': 'python3 tools/setup_check.py',
-    'hooks': {'guard': 'OPENSMT_VERIF_HOOKS', 'enable': 'no source hooks are needed: harnesses reach private state with -fno-access-control and stubs are chosen at IR level',
-              'baseline_off_cmd': 'cmake --build /repo/_build -j16 && ctest --test-dir /repo/_build -j8 --timeout 900', 'source_commits': [], 'add_only': True},
+    'hooks': {'guard': 'OPENSMT_VERIF_HOOKS', 'enable': 'only the C20 buffer-growth harness (harness/C20/pipe_grow.json) compiles src/api/Interpret.cc with -DOPENSMT_VERIF_HOOKS -DOPENSMT_VERIF_PIPE_BUFFER_SIZE=4 (interpPipe then starts with a 4-byte line buffer); every other harness reaches private state with -fno-access-control and chooses stubs at IR level, without source hooks',
+              'baseline_off_cmd': 'cmake --build /repo/_build -j16 && ctest --test-dir /repo/_build -j8 --timeout 900', 'source_commits': ['f8dfb01'], 'add_only': True},
     'engines': [{'name': 'ir2c+cbmc', 'path': 'tools/check.py', 'serves_properties': [c['property_id'] for c in checks],
                  'kind_free_text': 'clang++-14 lowers the real translation units to LLVM IR, tools/ir2c.py translates the IR to C, cbmc 6.11 decides the harness assertions by SAT; counterexamples are replayed on a native build of the same IR'}],
     'checks': checks,
